@@ -329,6 +329,18 @@ func c10Run(s *c10Scn, segName string, logEnc *json.Encoder, logMu *sync.Mutex) 
 			pipe.WaitDrained(500 * time.Millisecond)
 			time.Sleep(3 * time.Millisecond)
 		}}
+		lateRead := s.idx%2 == 0
+		if lateRead {
+			// the other way for late bytes to arrive: the read that was under way when the transport was closed comes back with
+			// them 30 ms AFTER Close has returned - while the second Open is waiting for the old read loop to leave
+			g = &gate{reached: map[string]bool{}}
+
+			pipe.Lock()
+			pipe.CloseBehaviour = "late"
+			pipe.LateOnClose = []byte("\r\n%LINK-3-UPDOWN: Interface Gi0/1, changed state to down\r\nr1>")
+			pipe.Unlock()
+		}
+
 		curGate.Store(g)
 
 		var e2 error
@@ -336,6 +348,12 @@ func c10Run(s *c10Scn, segName string, logEnc *json.Encoder, logMu *sync.Mutex) 
 		d.Channel.TimeoutOps = opTimeout
 		fin, pan = withWatchdog(8*time.Second, func() {
 			_ = d.Close()
+
+			if lateRead {
+				pipe.Lock()
+				pipe.CloseBehaviour = "eof"
+				pipe.Unlock()
+			}
 
 			pipe.Lock()
 			login.Log = nil
@@ -363,7 +381,7 @@ func c10Run(s *c10Scn, segName string, logEnc *json.Encoder, logMu *sync.Mutex) 
 		switch {
 		case !fin || pan != nil:
 			fail(&v, "C10:"+s.Style+":reopen:hang-or-panic", "script [%s]: Close and Open again: returned=%v panic=%v", scriptS, fin, pan)
-		case !g.atFired:
+		case !g.atFired && !lateRead:
 			v.OK, v.Sig, v.Detail = false, "TOOL", "Close never reached the yield point at which the device's late message is released"
 		case errClass(e2) != "ok":
 			fail(&v, "C10:"+s.Style+":reopen:outcome", "script [%s]: the second Open on the same driver -> %v, the device admits us exactly as the first time", scriptS, e2)
